@@ -364,12 +364,25 @@ class YieldInjector:
     the previous event came from another thread (an observed context switch at that statement)."""
     TOOL = 4
 
-    def __init__(self, ns):
+    def __init__(self, ns, wide=False):
+        import types
         self.codes = {}
         for fn, lab in ((ns.constants.Transformation.__add__, 'Transformation.__add__'),
                         (ns.constants.Transformation.__neg__, 'Transformation.__neg__'),
                         (ns.transform.conform7, 'conform7'), (ns.transform.conform14, 'conform14')):
             self.codes[getattr(fn, '__wrapped__', fn).__code__] = lab
+        if wide:
+            # every function and method defined in the library's computational modules (not only the anchored ones):
+            # a race through any module-level scratch state needs a yield inside that function to show
+            for mname in ('constants', 'convert', 'geodesy', 'transform', 'statistics', 'survey', 'coord'):
+                mod = getattr(ns, mname)
+                for k, v in vars(mod).items():
+                    if isinstance(v, types.FunctionType) and v.__module__ == mod.__name__:
+                        self.codes.setdefault(v.__code__, mname + '.' + k)
+                    elif isinstance(v, type) and v.__module__ == mod.__name__:
+                        for kk, vv in vars(v).items():
+                            if isinstance(vv, types.FunctionType):
+                                self.codes.setdefault(vv.__code__, '%s.%s.%s' % (mname, k, kk))
         self.last = None
         self.switch_sites = set()
         self.switches = 0
@@ -479,6 +492,7 @@ def run_shard(spec, ctx):
     ctx.info['pool_size'] = len(pool)
     ctx.info['functions_in_pool'] = sorted({fn_of(p) for p in pool})
     inj = YieldInjector(ns)
+    inj_wide = YieldInjector(ns, wide=True)
     for h in range(spec['histories']):
         n = rnd.randint(1, 50)
         idxs = [rnd.randrange(len(pool)) for _ in range(n)]
@@ -496,10 +510,16 @@ def run_shard(spec, ctx):
         n = rnd.randint(8, 50)
         idxs = [rnd.choice(tf) if rnd.random() < 0.7 else rnd.randrange(len(pool)) for _ in range(n)]
         ctx.count('threaded_histories')
-        check_history(ns, ctx, bar, pool, gold, idxs, threads=rnd.randint(2, 8), inj=inj)
-    ctx.counters['context_switches_observed'] += inj.switches
-    ctx.info['yield_injection'] = {'line_events': inj.events, 'context_switches': inj.switches,
-                                   'distinct_switch_sites': len(inj.switch_sites)}
+        if h % 2:
+            # wide injection: yields at every statement of every library function; any call may be interleaved
+            idxs = [rnd.randrange(len(pool)) for _ in range(rnd.randint(6, 24))]
+            check_history(ns, ctx, bar, pool, gold, idxs, threads=rnd.randint(2, 6), inj=inj_wide)
+        else:
+            check_history(ns, ctx, bar, pool, gold, idxs, threads=rnd.randint(2, 8), inj=inj)
+    ctx.counters['context_switches_observed'] += inj.switches + inj_wide.switches
+    ctx.info['yield_injection'] = {'line_events': inj.events + inj_wide.events, 'context_switches': inj.switches + inj_wide.switches,
+                                   'distinct_switch_sites': len(inj.switch_sites | inj_wide.switch_sites),
+                                   'functions_with_injected_yields': len(inj_wide.codes)}
     ctx.info['barrier_events_total'] = bar.events
 
 
